@@ -96,7 +96,7 @@ def run(ctx):
     with open(os.path.join(ctx.work, "c36_scripts.jsonl"), "w") as f:
         for sc in scripts:
             f.write(json.dumps(sc) + "\n")
-    for fn in ("c36_traces.jsonl", "c36_stress.jsonl"):
+    for fn in ("c36_traces.jsonl", "c36_stress.jsonl", "c36_abandon.jsonl"):
         p = os.path.join(ctx.work, fn)
         if os.path.exists(p):
             os.remove(p)
@@ -188,6 +188,16 @@ def run(ctx):
         if m is not None and m["mismatch"] is None and m["max_run"] != t["max_run"]:
             ctx.tie_broken("running-instance high-water mark differs (%s): model %d implementation %d" % (tid, m["max_run"], t["max_run"]), t["steps"])
 
+    abandon = read_jsonl(os.path.join(ctx.work, "c36_abandon.jsonl"))
+    if rc == 0 and len(abandon) < 6:
+        ctx.tie_broken("go-harness single-flight contract under abandonment (TestVerifC36Abandon)", out)
+    for a in abandon:
+        if a.get("max_run", 0) > 1:
+            ctx.violation("at_most_one_instance:stable-leader:second-flight-while-first-in-progress",
+                          "stable leader: %d running instances on nodes %s: a caller abandoned SpawnSingleton while its flight stood at %s, a later (%s) caller "
+                          "started a second flight for the same name before the first one ended" % (a["max_run"], a.get("max_on"), a["cancel_at"], a["second"]),
+                          {"scenario": {k: a[k] for k in ("cancel_at", "second", "caller_gave_up", "second_flight", "notes")}, "registry_ops": a.get("ops"),
+                           "how": "TestVerifC36Abandon in go/inpkg/actor/zz_verif_C36_test.go"})
     for st in stress:
         if st.get("where"):
             ctx.violation("at_most_one_instance:stress(%s)" % st["regime"], "real goroutines, stable leader: " + st["where"],
@@ -210,6 +220,7 @@ def run(ctx):
         "steps_compared": sum(lens), "trace_len_max": max(lens) if lens else 0, "label_histogram": hist,
         "traces_with_two_running_instances": two, "model_vs_impl_mismatches": n_mis,
         "stress": stress,
+        "single_flight_abandonment_scenarios": [{k: a.get(k) for k in ("cancel_at", "second", "caller_gave_up", "second_flight", "max_run")} for a in abandon],
         "theorems": ["C36_refuted", "C36_nx_refuted", "C36_partial", "C36_partial_nonvacuous"],
     })
 
